@@ -59,6 +59,43 @@ def published_keys(vc):
     vc.cover("keys")
 
 
+def fam_decr(seed, tier):
+    for sel in (0, 1, 2, 3, 77, 255):
+        yield dict(sel=sel)
+
+
+@proof("C09/EccDecryptor.__init__.wraps-for-its-own-key", functions=[(MOD, "EccDecryptor.__init__"),
+                                                                     (MOD, "EccEncryptor.__init__"),
+                                                                     (MOD, "KeySelectorEncryptor.__init__")],
+       family=fam_decr)
+def decryptor_init(vc):
+    """a decryptor built from a private key wraps for THAT key: for every selector (published or not) its public key is
+    the private key's own public key object, the selector is the one given, the private key is kept, and no published
+    default key is decoded in its place"""
+    M = vc.module(MOD)
+    sel = vc.int("sel", 0, 255)
+    decoded = []
+
+    class Priv:
+        def __init__(self):
+            self.public_key = object()
+
+    priv = Priv()
+    if vc.symbolic:
+        vc.patch(M, "create_public_ecc_key_from_der_fmt", lambda der: (decoded.append(der), object())[1])
+    out = vc.call(M.EccDecryptor, sel, priv)
+    vc.prove("constructs-for-every-selector", out.returned, repr(out.exc))
+    if not out.returned:
+        return
+    d = out.value
+    vc.prove("public-key-is-the-private-key's-own", d.public_key is priv.public_key)
+    vc.prove("private-key-kept", d.private_key is priv)
+    vc.prove("selector-kept", d.key_selector == sel)
+    if vc.symbolic:
+        vc.prove("no-published-key-decoded-instead", decoded == [])
+    vc.cover("built")
+
+
 def fam_pack(seed, tier):
     import random
     rnd = random.Random(seed)
